@@ -321,6 +321,21 @@ P["C11"]["units"] += [
            extra_sources=["libjwt/base64.c"], stubs=["stubs/alloc.c", "stubs/ghost.c"], defines=["VERIF_ALLOC_NEVER_FAILS"]),
 ]
 
+# =============================== C15 =======================================
+SETGET_C = "libjwt/jwt-setget.c"
+SETGET_STUBS = LIBC + ["stubs/jansson.c", "stubs/alloc.c"]
+P["C15"] = {"property": "C15", "level": "proof", "units": [
+    U("C15.__getter", "__getter -> jwt_get_int/str/bool (libjwt/jwt-setget.c)", SETGET_C, "contracts/jwt_setget_c.h",
+      "json_t *w; jwt_value_t *v; __getter(w, v);", "__getter/contract_C15___getter", stubs=SETGET_STUBS, flags=[],
+      expect=["contract_C15___getter\\.postcondition\\.5"]),
+    U("C15.__setter", "__setter -> jwt_set_int/str/bool -> jwt_obj_check (libjwt/jwt-setget.c)", SETGET_C, "contracts/jwt_setget_c.h",
+      "json_t *w; jwt_value_t *v; __setter(w, v);", "__setter/contract_C15___setter", stubs=SETGET_STUBS, flags=[],
+      expect=["contract_C15___setter\\.postcondition\\.4", "contract_C15___setter\\.postcondition\\.5"]),
+    U("C15.__deleter", "__deleter (libjwt/jwt-setget.c)", SETGET_C, "contracts/jwt_setget_c.h",
+      "json_t *w; const char *f; __deleter(w, f);", "__deleter/contract_C15___deleter", stubs=SETGET_STUBS, flags=[],
+      expect=["contract_C15___deleter\\.postcondition\\.2"]),
+]}
+
 # ============================ parsing units =================================
 VERIFY_JSON_STUBS = LIBC + ["stubs/time.c", "stubs/jansson.c", "stubs/alloc.c"]
 def parse_units(prop, clauses_name):
